@@ -260,3 +260,38 @@ Qed.
 (* a refused slice call leaves the collection as it was *)
 Theorem soset_refusal_keeps op o e : soset_step op o = Err e -> snext soset_step o op = o.
 Proof. intros H. unfold snext. rewrite H. reflexivity. Qed.
+
+(* ---------- typing and the observer's multiset ---------- *)
+From Coq Require Import Permutation.
+
+Lemma Forall_firstn_skipn {A} (P : A -> Prop) n (l : list A) :
+  Forall P l -> Forall P (firstn n l) /\ Forall P (skipn n l).
+Proof. intros H. rewrite <- (firstn_skipn n l) in H. apply Forall_app in H. exact H. Qed.
+
+(* C03: a slice assignment of conforming values into a conforming collection leaves only conforming values *)
+Theorem setslice_typed {A} (P : A -> Prop) a b (ys l : list A) :
+  Forall P l -> Forall P ys -> Forall P (py_setslice a b ys l) /\ Forall P (py_getslice a b l).
+Proof.
+  intros Hl Hy. unfold py_setslice, py_getslice. destruct (slice_bounds (zlen l) a b) as [lo hi]. split.
+  - apply Forall_app. split; [apply (Forall_firstn_skipn P _ l Hl)|].
+    apply Forall_app. split; [exact Hy | apply (Forall_firstn_skipn P _ l Hl)].
+  - apply (Forall_firstn_skipn P _ _ (proj2 (Forall_firstn_skipn P _ l Hl))).
+Qed.
+
+(* C05: an observer told "the slice read before the call was removed, ys were added" holds the new content as a multiset *)
+Theorem setslice_mirror {A} a b (ys l : list A) :
+  Permutation (py_setslice a b ys l ++ py_getslice a b l) (l ++ ys).
+Proof.
+  unfold py_setslice, py_getslice. destruct (slice_bounds (zlen l) a b) as [lo hi] eqn:E.
+  destruct (slice_bounds_range _ _ _ _ _ (zlen_nonneg l) E) as (H0 & H1 & H2).
+  set (F := firstn (Z.to_nat lo) l). set (S := skipn (Z.to_nat hi) l).
+  set (M := firstn (Z.to_nat (hi - lo)) (skipn (Z.to_nat lo) l)).
+  assert (Hl : l = F ++ M ++ S).
+  { unfold F, M, S. replace (Z.to_nat (hi - lo)) with (Z.to_nat hi - Z.to_nat lo)%nat by lia.
+    symmetry. apply firstn_skipn_mid. lia. }
+  rewrite Hl at 1. rewrite <- !app_assoc. apply Permutation_app_head.
+  (* ys ++ S ++ M  ~  M ++ S ++ ys *)
+  rewrite (Permutation_app_comm ys (S ++ M)). rewrite <- app_assoc.
+  rewrite (Permutation_app_comm S (M ++ ys)). rewrite <- app_assoc.
+  apply Permutation_app_head. apply Permutation_app_comm.
+Qed.
